@@ -35,7 +35,7 @@ def compile (opts : Opts) (fs : FS) (file : Option Path) (src : Source) : Result
   | .error (.tab n) => .err { k := .invalidTab, lineNo := some n }
   | .error (.quote n) => .err { k := .unclosedQuotations, lineNo := some n }
   | .ok nodes =>
-    let ctx : Ctx := { opts := opts, fs := fs, frames := [], file := file }
+    let ctx : Ctx := { opts := opts.flags, fs := fs, frames := [], file := file }
     match exec (opts.stackLimit - 1) nodes ctx { env := initEnv } with
     | .ok r =>
       let st := startBaseWarn r.st r.sig
